@@ -10,10 +10,11 @@ import GoJson.Drv.Enc
 import GoJson.Drv.C19
 import GoJson.Drv.Dec
 import GoJson.Drv.Mem
+import GoJson.Drv.C08
 
 open GoJson.Drv
 
-def handlers : List (List String → Option String) := [C16.handle, C17.handle, C05.handle, C18.handle, C14.handle, C09.handle, C15.handle, C20.handle, Enc.handle, C19.handle, Dec.handle, Mem.handle]
+def handlers : List (List String → Option String) := [C16.handle, C17.handle, C05.handle, C18.handle, C14.handle, C09.handle, C15.handle, C20.handle, Enc.handle, C19.handle, Dec.handle, Mem.handle, C08.handle]
 
 def step (line : String) : String :=
   let ws := (line.splitOn " ").filter (· ≠ "")
